@@ -122,17 +122,42 @@ func (m *monitor) Send3(id uuid.UUID, update database.Update) {
 	}
 }
 
+// filterColumns returns a copy of the row with the provided columns only, or
+// with all the columns if no columns are provided
 func filterColumns(row *ovsdb.Row, columns map[string]bool) *ovsdb.Row {
 	if row == nil {
 		return nil
 	}
 	new := make(ovsdb.Row, len(*row))
 	for k, v := range *row {
-		if _, ok := columns[k]; ok {
+		if _, ok := columns[k]; ok || columns == nil {
 			new[k] = v
 		}
 	}
 	return &new
+}
+
+// requestFor returns the columns and the kinds of change a monitor selected for
+// a table. As per RFC 7047, all columns are monitored if the request, or its
+// columns, are omitted and all kinds of change are selected if select is
+// omitted.
+func (m *monitor) requestFor(table string) (map[string]bool, ovsdb.MonitorSelect) {
+	request := m.request[table]
+	if request == nil {
+		return nil, ovsdb.MonitorSelect{}
+	}
+	var cols map[string]bool
+	if len(request.Columns) > 0 {
+		cols = make(map[string]bool, len(request.Columns)+1)
+		cols["_uuid"] = true
+		for _, c := range request.Columns {
+			cols[c] = true
+		}
+	}
+	if request.Select == nil {
+		return cols, ovsdb.MonitorSelect{}
+	}
+	return cols, *request.Select
 }
 
 func (m *monitor) filter(update database.Update) ovsdb.TableUpdates {
@@ -146,23 +171,16 @@ func (m *monitor) filter(update database.Update) ovsdb.TableUpdates {
 			continue
 		}
 		tu := ovsdb.TableUpdate{}
-		cols := make(map[string]bool)
-		cols["_uuid"] = true
-		for _, c := range m.request[table].Columns {
-			cols[c] = true
-		}
+		cols, selected := m.requestFor(table)
 		_ = update.ForEachRowUpdate(table, func(uuid string, ru2 ovsdb.RowUpdate2) error {
 			ru := &ovsdb.RowUpdate{}
 			ru.FromRowUpdate2(ru2)
 			switch {
-			case ru.Insert() && m.request[table].Select.Insert():
+			case ru.Insert() && selected.Insert():
 				fallthrough
-			case ru.Modify() && m.request[table].Select.Modify():
+			case ru.Modify() && selected.Modify():
 				fallthrough
-			case ru.Delete() && m.request[table].Select.Delete():
-				if len(cols) == 0 {
-					return nil
-				}
+			case ru.Delete() && selected.Delete():
 				ru.New = filterColumns(ru.New, cols)
 				ru.Old = filterColumns(ru.Old, cols)
 				tu[uuid] = ru
@@ -185,21 +203,14 @@ func (m *monitor) filter2(update database.Update) ovsdb.TableUpdates2 {
 			continue
 		}
 		tu2 := ovsdb.TableUpdate2{}
-		cols := make(map[string]bool)
-		cols["_uuid"] = true
-		for _, c := range m.request[table].Columns {
-			cols[c] = true
-		}
+		cols, selected := m.requestFor(table)
 		_ = update.ForEachRowUpdate(table, func(uuid string, ru2 ovsdb.RowUpdate2) error {
 			switch {
-			case ru2.Insert != nil && m.request[table].Select.Insert():
+			case ru2.Insert != nil && selected.Insert():
 				fallthrough
-			case ru2.Modify != nil && m.request[table].Select.Modify():
+			case ru2.Modify != nil && selected.Modify():
 				fallthrough
-			case ru2.Delete != nil && m.request[table].Select.Delete():
-				if len(cols) == 0 {
-					return nil
-				}
+			case ru2.Delete != nil && selected.Delete():
 				ru2.Insert = filterColumns(ru2.Insert, cols)
 				ru2.Modify = filterColumns(ru2.Modify, cols)
 				ru2.Delete = filterColumns(ru2.Delete, cols)
